@@ -270,6 +270,11 @@ def check(chk):
             # inside a try whose handlers catch StopIteration
             p = nx
             prot = False
+            if len(nx.args) == 2:
+                # next(schedule, default) does not raise on exhaustion; the default must be None so that exhaustion stays distinguishable from a delay
+                chk.judge(is_none(nx.args[1]), 'C24.exhaust', nx, '%s: next(self.schedule, None) - exhaustion yields None' % fn,
+                          'an exhausted schedule yields %s, which the handler cannot tell from a delay' % src(nx.args[1]))
+                continue
             from ..core import parent
             while p is not None and p is not f:
                 pp = parent(p)
@@ -280,7 +285,7 @@ def check(chk):
             chk.judge(prot, 'C24.exhaust', nx, '%s: next(self.schedule) under except StopIteration' % fn,
                       'an exhausted schedule raises StopIteration out of %s instead of ending the attempt series' % fn)
     run = pool.func('_ReconnectionHandler.run')
-    g = CFG(run, may_raise=lambda n: ['StopIteration'] if any(isinstance(x, ast.Call) and isinstance(x.func, ast.Name) and x.func.id == 'next' for x in walk_no_nested(n))
+    g = CFG(run, may_raise=lambda n: ['StopIteration'] if any(isinstance(x, ast.Call) and isinstance(x.func, ast.Name) and x.func.id == 'next' and len(x.args) == 1 for x in walk_no_nested(n))
             else (['Exception'] if any(isinstance(x, ast.Call) and src(x.func) == 'self.try_reconnect' for x in walk_no_nested(n)) else []))
 
     # dataflow: value of next_delay: 'none' after the StopIteration handler, 'delay' after next(); scheduling requires 'delay'
@@ -288,7 +293,8 @@ def check(chk):
         if node.kind == 'stmt' and isinstance(node.ast, ast.Assign) and len(node.ast.targets) == 1 and isinstance(node.ast.targets[0], ast.Name):
             name = node.ast.targets[0].id
             if isinstance(node.ast.value, ast.Call) and isinstance(node.ast.value.func, ast.Name) and node.ast.value.func.id == 'next':
-                return c + ((name, 'delay'),) if (name, 'delay') not in c else c
+                kind_ = 'delay' if len(node.ast.value.args) == 1 else 'maybe'
+                return tuple(x for x in c if x[0] != name) + ((name, kind_),)
             if is_none(node.ast.value):
                 return tuple(x for x in c if x[0] != name) + ((name, 'none'),)
         return c
@@ -309,7 +315,7 @@ def check(chk):
         bad = []
         for facts, c in fl.at(sn):
             vals = dict(c)
-            if vals.get(dv) == 'none' and facts.knows('%s is None' % dv) is not False:
+            if vals.get(dv) in ('none', 'maybe') and facts.knows('%s is None' % dv) is not False:
                 bad.append((facts, c))
         if bad:
             chk.viol('C24.exhaust', sn.ast, 'run: schedule(%s, self.run) only when a delay was drawn' % dv,
